@@ -184,6 +184,14 @@ impl Ldap {
         next_ldap_id
     }
 
+    /// Drop the per-operation modifiers of an operation which fails before it is sent,
+    /// so that they don't get attached to the next one.
+    fn discard_modifiers(&mut self) {
+        self.controls = None;
+        self.timeout = None;
+        self.search_opts = None;
+    }
+
     pub(crate) async fn op_call(
         &mut self,
         op: LdapOp,
@@ -609,6 +617,7 @@ impl Ldap {
             ],
         });
         if any_empty {
+            self.discard_modifiers();
             return Err(LdapError::AddNoValues);
         }
         Ok(self.op_call(LdapOp::Single, req).await?.0)
@@ -730,6 +739,7 @@ impl Ldap {
             ],
         });
         if any_add_empty {
+            self.discard_modifiers();
             return Err(LdapError::AddNoValues);
         }
         Ok(self.op_call(LdapOp::Single, req).await?.0)
